@@ -40,9 +40,16 @@ def replay_dbw(model):
                  "inputs": m}
 
 
-def replay_dgor(model, int_p=False):
+def replay_dgor(model, int_p=False, after_other_gas=False):
     from bluebonnet.fluids import oil
     m = model_floats(model, ["T", "p", "api", "gg", "rsi"], default=dict(T=200.0, p=2000.0, api=35.0, gg=0.8, rsi=650.0))
+    if after_other_gas:
+        # the same calls for an oil that differs only in its gas gravity come first
+        m2 = model_floats(model, ["gg_other", "p_other"], default=dict(gg_other=1.25 if m["gg"] < 0.9 else 0.58, p_other=1000.0))
+        if abs(m2["gg_other"] - m["gg"]) < 0.2:
+            m2["gg_other"] = 1.25 if m["gg"] < 0.9 else 0.58
+        oil.solution_gor_Standing(m["T"], m2["p_other"], m["api"], m2["gg_other"], m["rsi"])
+        oil.dgor_dpressure_Standing(m["T"], m2["p_other"], m["api"], m2["gg_other"], m["rsi"])
     if int_p:
         m["p"] = int(round(m["p"]))          # a pressure given as a Python int (the docstring's own example: 2_000)
     a = (m["T"], m["api"], m["gg"], m["rsi"])
@@ -210,7 +217,7 @@ def job_water(job):
             job.validate("b_water_McCain_dp", evalf(hand, env), float(rw.b_water_McCain_dp(t, p)), inputs=env)
 
 
-def job_dgor(job, int_p=False):
+def job_dgor(job, int_p=False, after_other_gas=False):
     oil = load_sym("bluebonnet.fluids.oil")
     job.encoded(oil, "solution_gor_Standing", "dgor_dpressure_Standing", "pressure_bubblepoint_Standing")
     job.bound(oil_box="T 80..350 F, API 12..55, gas gravity 0.56..1.3, initial GOR 20..2500, p 15..20000 psia")
@@ -219,7 +226,21 @@ def job_dgor(job, int_p=False):
     if int_p:
         job.bound(pressure_kind="a Python int (whole psi), as in the function's own docstring example")
     a = (vs["T"], vs["p"], vs["api"], vs["gg"], vs["rsi"])
-    res = paths(job, lambda: (oil.solution_gor_Standing(*a), oil.dgor_dpressure_Standing(*a)), dom)
+    if after_other_gas:
+        # two oils in one process that differ only in the gravity of their gas: the derivative for the second is the
+        # derivative of ITS solution GOR (whatever the first evaluation left behind)
+        itag += "[after the same calls for an oil with another gas gravity]"
+        v2, d2 = box(None, gg_other=("0.56", "1.3"), p_other=(15, 20000))
+        dom = dom + d2
+        b = (vs["T"], v2["p_other"], vs["api"], v2["gg_other"], vs["rsi"])
+
+        def run2():
+            oil.solution_gor_Standing(*b)
+            oil.dgor_dpressure_Standing(*b)
+            return oil.solution_gor_Standing(*a), oil.dgor_dpressure_Standing(*a)
+        res = paths(job, run2, dom, max_paths=64)
+    else:
+        res = paths(job, lambda: (oil.solution_gor_Standing(*a), oil.dgor_dpressure_Standing(*a)), dom)
     if len(res) < 2:
         job.errors.append(f"dgor: expected a path on each side of the bubble point, got {len(res)}")
     from bluebonnet.fluids import oil as ro
@@ -227,10 +248,10 @@ def job_dgor(job, int_p=False):
         parent, hand = pr.value
         d = T.diff(P(parent), _var_atom(vs["p"]))
         job.prove(f"oil/dRs_dp{itag}[path{k}]", pr.pc + [not_close(simp(d), hand, abs_tol=Fraction(0))], bound="oil box",
-                  replay=(replay_dgor, {"int_p": int_p}))
+                  replay=(replay_dgor, {"int_p": int_p, "after_other_gas": after_other_gas}))
         job.prove(f"oil/dRs_dp{itag}/reach[path{k}]", pr.pc, expect="sat")
         check_defined(job, f"oil/dRs_dp{itag}/path{k}", pr)
-        if int_p:
+        if int_p or after_other_gas:
             continue
         for tcase in OIL_TESTS:
             env = dict(tcase)
@@ -350,5 +371,5 @@ def job_co(job, real_parts=False, defaults=False):
 
 
 def jobs(tier):
-    return [("water", job_water), ("dgor", job_dgor), ("dgor-int-pressure", lambda j: job_dgor(j, True)), ("dbo", job_dbo),
+    return [("water", job_water), ("dgor", job_dgor), ("dgor-int-pressure", lambda j: job_dgor(j, True)), ("dgor-after-another-gas-gravity", lambda j: job_dgor(j, False, True)), ("dbo", job_dbo),
             ("co-uf", lambda j: job_co(j, False)), ("co-real", lambda j: job_co(j, True)), ("co-uf-default-standard-conditions", lambda j: job_co(j, False, True))]
